@@ -46,10 +46,17 @@ def scope(ctx: Ctx) -> List[str]:
 
 def r17_2(ctx: Ctx) -> None:
     func = ctx.fn(FEATURE, "Feature.to_biopython")
-    ok = 'quals["note"] = sorted(notes)' in txt(func).replace("'", '"')
+    # the dict whose items are copied into the SeqFeature's qualifiers, and the note list stored in it
+    loops = [n for n in walk_local(func) if isinstance(n, ast.For) and isinstance(n.iter, ast.Call) and call_name(n.iter) == "sorted"
+             and n.iter.args and txt(n.iter.args[0]).endswith(".items()")
+             and any(isinstance(st, ast.Assign) and ".qualifiers[" in txt(st.targets[0]) for st in n.body)]
+    quals = txt(loops[0].iter.args[0])[:-len(".items()")] if loops else ""
+    note_stores = [n for n in walk_local(func) if isinstance(n, ast.Assign) and isinstance(n.targets[0], ast.Subscript)
+                   and txt(n.targets[0].value) == quals and txt(n.targets[0].slice) in ("'note'", '"note"')]
+    ok = bool(note_stores) and all(isinstance(n.value, ast.Call) and call_name(n.value) == "sorted" for n in note_stores)
     ctx.ob("R17.2", FEATURE, func, "Feature.to_biopython", "notes sorted", ok, "a feature's notes are written in sorted order", form="")
-    loops = [n for n in walk_local(func) if isinstance(n, ast.For) and "sorted(quals.items())" in txt(n.iter)]
-    ctx.ob("R17.2", FEATURE, func, "Feature.to_biopython", "qualifier keys sorted", bool(loops),
+    unsorted_copies = [n for n in walk_local(func) if isinstance(n, ast.For) and quals and txt(n.iter) in (f"{quals}.items()", quals)]
+    ctx.ob("R17.2", FEATURE, func, "Feature.to_biopython", "qualifier keys sorted", bool(loops) and not unsorted_copies,
            "qualifiers are emitted in sorted key order", form="")
     func = ctx.fn(REC, "Record.to_biopython")
     sorted_uses = [n for n in ast.walk(func) if isinstance(n, ast.Call) and txt(n) == "sorted(self.all_features)"]
